@@ -75,7 +75,6 @@ structure State where
   waitFor : Tbl := []
   endOn : Tbl := []
   cur : Option Nat := none
-  prev : Option Nat := none
   out : List String := []                    -- reverse order
   nextTid : Nat := 100
   nextInst : Nat := 1
@@ -296,12 +295,11 @@ def scriptExecuteInternal : Nat → State → Nat → State
   | 0, s, _ => { s with outOfFuel := true }
   | fuel + 1, s, t =>
     let savedCur := s.cur
-    let s := { s with prev := savedCur, cur := some t }
+    let s := { s with cur := some t }     -- (m_PreviousThread is written here too; nothing modelled reads it)
     let s := stop fuel s t
     let s := execVM fuel s t
     -- restore (both are SafePtr: a thread destroyed meanwhile reads null)
-    let s := { s with cur := savedCur.bind (fun c => if s.alive c then some c else none),
-                      prev := if s.alive t then some t else none }
+    let s := { s with cur := savedCur.bind (fun c => if s.alive c then some c else none) }
     executeRunning fuel s
 
 /-- `ScriptMaster::ExecuteRunning` -/
